@@ -1,13 +1,13 @@
 """Ownership typestate of blocks from the injected allocator (C15), release function shape (C15/C16)."""
 from .frontend import AnalysisBroken
 from .paths import Walk, feasible_walks
-from .ir import base_name, DATA_STRUCT
+from .ir import base_name, DATA_STRUCT, strip_casts
 
 
 def param_summaries(P):
     """per (function, argno): does the pointer parameter reach dep:free ('releases') or get stored as a value /
     returned ('captures')?  Fixpoint over direct calls."""
-    rel = set(); cap = set()
+    rel = set(); cap = set(); retd = set()       # retd: the function may return a pointer derived from that parameter (its caller then holds a derived pointer: not a capture)
     changed = True
     while changed:
         changed = False
@@ -27,13 +27,22 @@ def param_summaries(P):
                                 k = ('i', v['id']) if v['k'] == 'i' else (('a', v['n']) if v['k'] == 'a' else None)
                                 if k in der:
                                     der.add(('i', i.id)); grow = True
+                        elif i.op == 'call' and ('i', i.id) not in der and not P.is_dbg(i):
+                            t_ = P.call_target(i)
+                            if t_[0] == 'direct' and any((t_[1], k_) in retd and ((a_['k'] == 'i' and ('i', a_['id']) in der) or (a_['k'] == 'a' and ('a', a_['n']) in der)) for k_, a_ in enumerate(i.ops)):
+                                der.add(('i', i.id)); grow = True
                 def isder(v):
                     return (v['k'] == 'i' and ('i', v['id']) in der) or (v['k'] == 'a' and ('a', v['n']) in der)
                 for i in f.all_insts():
                     if i.op == 'store' and isder(i.ops[0]):
+                        r_, _ = strip_casts(f, i.ops[1])
+                        if r_['k'] == 'i' and f.insts[r_['id']].op == 'alloca':
+                            continue      # parked in a local of this function (a context struct / pointer array): dies with the frame (ESC-1 covers locals that escape; OWN-4 covers static / heap storage)
                         if (f.name, n) not in cap: cap.add((f.name, n)); changed = True
                     elif i.op == 'ret' and i.ops and isder(i.ops[0]):
-                        if (f.name, n) not in cap: cap.add((f.name, n)); changed = True
+                        if f.local:
+                            if (f.name, n) not in retd: retd.add((f.name, n)); changed = True
+                        elif (f.name, n) not in cap: cap.add((f.name, n)); changed = True
                     elif i.op == 'call' and not P.is_dbg(i):
                         t = P.call_target(i)
                         for k, a in enumerate(i.ops):
@@ -109,6 +118,19 @@ def ownership(ctx, rep, cfgs=None):
         rep.check(len(free_fns) == 1, 'exactly one function calls the injected free', frees[0][1].loc, str(free_fns),
                   sample={'release_function': free_fns, 'constructors': sorted(set(f.name for f, _ in allocs))})
         relfn = free_fns[0]
+
+        rep.rule('OWN-4', 'no pointer to a seed block is ever stored in static storage or inside another heap block (points-to, whole program): a seed is reachable only through the '
+                 'pointer published in the caller\'s output parameter, so nothing but the caller can release it or keep it alive')
+        pts = P.points_to(); nk = 0
+        for node, objs in list(pts.pts.items()):
+            if node[0] != 'content': continue
+            o = node[1]
+            if o[0] == 'heap' or (o[0] == 'global' and not P.globals.get(o[1], {}).get('constant')):
+                nk += 1
+                held = sorted(x for x in objs if x[0] == 'heap')
+                rep.check(not held, '%s holds no seed pointer' % (o,), allocs[0][1].loc if allocs else 'src/', '%s may hold a pointer to the block allocated in %s' % (o[1] if o[0] == 'global' else 'a heap block', held[0][1] if held else ''),
+                          detail={'object': str(o), 'holds': [str(x) for x in held[:3]]}, key='OWN-4|%s' % (o[1],))
+        rep.info['own4_objects'] = nk
 
         # ---- behaviour of the release function (bitflow: helpers are followed, wrappers resolved)
         rep.rule('OWN-2', 'release function, interpreted abstractly: with a NULL argument no injected function is called at all; with a block it calls '
@@ -205,6 +227,10 @@ def _typestate(P, f, w, rep, rel, cap, relfn, size, OK, EMEM, wrappers=()):
             uses.append(-1)
         if i.op in ('bitcast', 'getelementptr', 'icmp'):
             continue
+        if i.op == 'store' and 0 in uses and 1 not in uses:
+            r_, _ = strip_casts(f, i.ops[1])
+            if r_['k'] == 'i' and f.insts[r_['id']].op == 'alloca':
+                continue          # the pointer value is parked in a local (no dereference); uses through that local are followed by store-to-load forwarding
         if i.op == 'br' and len(i.ops) == 3:
             # outcome of a NULL test on the block?
             for (k, r, c) in w.facts:
